@@ -166,12 +166,17 @@ func currentAge(resp *http.Response) time.Duration {
 func (rt *RoundTripper) cacheKey(req *http.Request) string {
 	hash := sha256.New()
 
+	// the separators ensure that different requests cannot result in the same sequence of bytes (like the
+	// end of the url continued by the authorization header compared to a longer url with a shorter header)
 	hash.Write(stringx.ToBytes("RFC 7234"))
 	// responses, which do not define their freshness lifetime, are stored for the configured default ttl. A round
 	// tripper configured with a different one must not make use of them beyond its own.
 	hash.Write(stringx.ToBytes(rt.DefaultCacheTTL.String()))
+	hash.Write([]byte{0})
 	hash.Write(stringx.ToBytes(req.URL.String()))
+	hash.Write([]byte{0})
 	hash.Write(stringx.ToBytes(req.Method))
+	hash.Write([]byte{0})
 
 	value := req.Header.Get("Authorization")
 	if len(value) != 0 {
